@@ -82,7 +82,8 @@ theorem stepShot_eq_spec (be : Backend) (nq nc : Nat) (op : Op) (s : Shot)
       simp [stepShot, Spec.Register.step, hv.1, vec_measureAll_eq_spec nq cbits s hq hn64 hc hnd]
     | stabilizer =>
       have := measureAllStabLoop_eq_spec nq (outcomeOf s.qs) cbits 0 s.word (by omega) hc
-      simp only [stepShot, Spec.Register.step, measureAllStabWord, this, Res.map]
+      simp only [stepShot, Spec.Register.step, measureAllStabWord, this, Res.map, hv.1, ne_eq,
+        not_true_eq_false, ↓reduceIte]
       rfl
   | peekAll cbits =>
     simp only [Spec.Register.opValid, Bool.and_eq_true, decide_eq_true_eq] at hv
@@ -91,8 +92,7 @@ theorem stepShot_eq_spec (be : Backend) (nq nc : Nat) (op : Op) (s : Shot)
     | vector =>
       simp [stepShot, Spec.Register.step, hv.1, vec_measureAll_eq_spec nq cbits s hq hn64 hc hnd]
     | stabilizer =>
-      have hlen : ¬ cbits.length > nq := by omega
-      simp [stepShot, Spec.Register.step, hlen, stab_peekAll_eq_spec cbits s hc hnd]
+      simp [stepShot, Spec.Register.step, hv.1, stab_peekAll_eq_spec cbits s hc hnd]
   | reset q => rfl
   | resetAll => rfl
   | barrier bits => rfl
@@ -272,6 +272,8 @@ theorem stepShot_frame (be : Backend) (nq : Nat) (op : Op) (s s' : Shot)
         | some w => rw [hw] at h; injection h with h; rw [← h]; exact measureAllVecWord_frame hw j hj
     | stabilizer =>
       simp only [stepShot, measureAllStabWord] at h
+      split at h
+      · cases h
       cases hw : measureAllStabLoop nq (outcomeOf s.qs) cbits 0 s.word with
       | ok w => rw [hw] at h; simp only [Res.map] at h; injection h with h; rw [← h]
                 exact measureAllStabLoop_frame _ _ _ _ _ _ hw j hj
